@@ -218,7 +218,7 @@ def run(rep: Report, tier: str) -> None:
     r = common.run_tlc("ScaledOps_MC", "ScaledOps_MC_leg.cfg", timeout=300, tag="somcleg")
     common.tlc_must_fail(r, "ScaledOps_MC Legacy=conv_drops_kernel", "UnitScaleOK")
     rep.extra["l2_refuted_deviations"] = [{"legacy": "conv_drops_kernel", "violated": r.violated_invariant}]
-    items = gen(rng, 400 if tier == "quick" else 4000)
+    items = gen(rng, 400 if tier == "quick" else 40000)
     ev = common.tlc_eval("ScaledOps_Eval", "ScaledOps_Eval.cfg", [{"kind": "c03", "c": it["c"]} for it in items], tag="c03eval", timeout=900)
     rep.states += ev["states"]
     rep.transitions += ev["transitions"]
